@@ -390,7 +390,26 @@ func c12TTests(c *Ctx, p *Prog) {
 			}
 			if !(o.Results[1].isConst() && o.Results[1].IsNil) {
 				nErr++
-				// an error return computes nothing: its condition atoms are only comparisons of sizes/variances with constants
+				// an error return computes nothing: its condition atoms are only comparisons of sizes/variances with constants.
+				// One constant sample is a legal input of a two-sample test: where a variance-is-zero test led to the
+				// error, both variances were found zero
+				if sp.name != "OneSampleTTest" {
+					zeroTrue, zeroSeen := 0, 0
+					for _, k := range o.AtomKeys() {
+						a := o.AtomSyms[k]
+						if a.Op == "binop" && a.Tok == token.EQL && len(a.Args) == 2 && isZeroConst(a.Args[1]) && strings.HasPrefix(sp.leaf(a.Args[0]), "v") {
+							zeroSeen++
+							if o.Assign[k] {
+								zeroTrue++
+							}
+						}
+					}
+					if zeroTrue > 0 {
+						c.Check(zeroTrue == 2, "C12/R1", sp.name+":zero-variance-needs-both", site, "the zero-variance error needs both variances to be zero",
+							fmt.Sprintf("the test refuses its input on a path where only %d of the two variances was found zero: one constant sample against a varying one is a legal input with a defined statistic (a clear difference is then reported as '~ (zero variance)')", zeroTrue))
+					}
+					_ = zeroSeen
+				}
 				continue
 			}
 			nOK++
